@@ -176,6 +176,21 @@ def interface_doc(keys, nulls=()):
             t = z3.BitVec("v_rdnss_lifetime", 64)
             terms[k] = t
             pairs.append(("dns-servers", y_hash([("lifetime", y_int(t))])))
+        elif k == "prefixes-emptymap":
+            pairs.append(("prefixes", y_arr([y_hash([])])))
+        elif k == "prefixes-noprefix":
+            t = z3.BitVec("v_prefix_valid", 64)
+            terms[k] = t
+            pairs.append(("prefixes", y_arr([y_hash([("valid", y_int(t))])])))
+        elif k == "prefixes-full":
+            tv, tp = z3.BitVec("v_prefix_valid", 64), z3.BitVec("v_prefix_preferred", 64)
+            tl, ta = z3.Bool("v_prefix_onlink"), z3.Bool("v_prefix_auto")
+            terms["prefix-valid"], terms["prefix-preferred"], terms["prefix-onlink"], terms["prefix-auto"] = tv, tp, tl, ta
+            pairs.append(("prefixes", y_arr([y_hash([("prefix", y_str("2001:db8:1::/64")), ("on-link", y_bool(tl)), ("autonomous", y_bool(ta)), ("valid", y_int(tv)), ("preferred", y_int(tp))])])))
+        elif k.startswith("pref64-len"):
+            t = z3.BitVec("v_pref64_lifetime", 64)
+            terms["pref64-lifetime"] = t
+            pairs.append(("pref64", y_hash([("prefix", y_str("64:ff9b::/%d" % int(k[len("pref64-len"):]))), ("lifetime", y_int(t))])))
         elif k == "prefixes-empty":
             pairs.append(("prefixes", y_arr([])))
         elif k == "pref64-empty":
@@ -206,6 +221,10 @@ def interface_obligation(prog, enums, structs, keys, nulls=()):
         else:
             k = classify(val)
             kinds[k] = kinds.get(k, 0) + 1
+            if k == "err":
+                for kk in keys:
+                    if kk.startswith("pref64-len") and int(kk[len("pref64-len"):]) in (32, 40, 48, 56, 64, 96):
+                        claims.append(("a NAT64 prefix of a legal length with a non-negative lifetime is accepted", terms["pref64-lifetime"] < 0))
             if k == "ok:Some":
                 intf = val.fields[0].fields[0]
 
@@ -249,6 +268,22 @@ def interface_obligation(prog, enums, structs, keys, nulls=()):
                 if "dns-servers-lifetime" in terms:
                     f = cv("rdnss_lifetime")
                     claims.append(("dns-servers lifetime is recorded as configured", z3.And(z3.BoolVal(f.variant == "Value"), dur_secs(f.fields[0]) == terms["dns-servers-lifetime"]) if f.variant == "Value" else z3.BoolVal(False)))
+                if "prefix-valid" in terms:
+                    ps = cv("prefixes").items
+                    if len(ps) != 1:
+                        claims.append(("one configured prefix is recorded as one prefix", z3.BoolVal(False)))
+                    else:
+                        p0 = ps[0]
+                        claims.append(("a prefix entry is recorded as configured (prefix 2001:db8:1::/64, on-link, autonomous, valid and preferred lifetimes)",
+                                       z3.And(field(structs, p0, "prefixlen").t == 64, field(structs, p0, "onlink").t == terms["prefix-onlink"], field(structs, p0, "autonomous").t == terms["prefix-auto"],
+                                              dur_secs(field(structs, p0, "valid")) == terms["prefix-valid"], dur_secs(field(structs, p0, "preferred")) == terms["prefix-preferred"])))
+                for kk in keys:
+                    if kk.startswith("pref64-len"):
+                        n = int(kk[len("pref64-len"):])
+                        p6 = cv("pref64")
+                        claims.append(("a NAT64 prefix is accepted only with a length RFC 8781 can express (32, 40, 48, 56, 64, 96) and recorded with that length and lifetime",
+                                       z3.And(z3.BoolVal(n in (32, 40, 48, 56, 64, 96) and p6.variant == "Some"), field(structs, p6.fields[0], "prefixlen").t == n,
+                                              dur_secs(field(structs, p6.fields[0], "lifetime")) == terms["pref64-lifetime"]) if p6.variant == "Some" else z3.BoolVal(False)))
                 if "hop-limit" in terms:
                     claims.append(("an accepted hop-limit fits the 8-bit field and is the configured value",
                                    z3.And(terms["hop-limit"] >= 0, terms["hop-limit"] <= 255, z3.ZeroExt(56, cv("hoplimit").t) == terms["hop-limit"])))
@@ -276,7 +311,11 @@ def interface_shapes(tier):
            ("header_fields", ["hop-limit", "managed", "other", "lifetime", "reachable", "retransmit", "mtu"], []),
            ("nulls", ["lifetime", "mtu", "dns-search", "dns-servers-null", "captive-portal-null"], ["lifetime", "mtu"]),
            ("option_lifetimes", ["dns-search-lifetime", "dns-servers-lifetime"], []),
-           ("empty_collections", ["dns-search-empty", "prefixes-empty", "pref64-empty"], [])]
+           ("empty_collections", ["dns-search-empty", "prefixes-empty", "pref64-empty"], []),
+           ("prefix_entry_empty_mapping", ["prefixes-emptymap"], []),
+           ("prefix_entry_without_prefix", ["prefixes-noprefix"], []),
+           ("prefix_entry_full", ["prefixes-full"], []),
+           ("pref64_len96", ["pref64-len96"], []), ("pref64_len64", ["pref64-len64"], []), ("pref64_len16", ["pref64-len16"], []), ("pref64_len33", ["pref64-len33"], []), ("pref64_len128", ["pref64-len128"], [])]
     return out
 
 
@@ -284,8 +323,10 @@ def interface_shapes(tier):
 def policy_obligation(prog, enums, structs, kind, span):
     """kind: 'range' (apply-range {start,end}) / 'range_rev' (end key first) / 'subnet' (apply-subnet with a concrete prefix length
     `span`) / 'address'.  For ranges `span` bounds end - start (the expansion loop is unrolled)."""
-    fn = find1(prog, "parse_policy", 1, "dhcp")
+    fn = find1(prog, "parse_policy" if kind != "routes" else "parse_routes", 1, "dhcp")
     ex = mk_exec(prog, enums, unroll=max(12, (span if kind.startswith("range") else (1 << max(0, 32 - span)) if kind == "subnet" else 1) + 4))
+    if kind == "routes":
+        ex.max_unroll = 600
 
     def run(e):
         start, end = z3.BitVec("start", 32), z3.BitVec("end", 32)
@@ -301,6 +342,10 @@ def policy_obligation(prog, enums, structs, kind, span):
             doc = y_hash([("apply-address", y_ip(start))])
         elif kind == "subnet":
             doc = y_hash([("apply-subnet", Adt("Yaml", "String", [Str(ip=start, plen=span)]))])
+        elif kind == "routes":
+            # apply-routes: [ {prefix: <start>/<span> (no "/<len>" at all when span < 0), next-hop: <end>} ]
+            pfx = Adt("Yaml", "String", [Str(ip=start, plen=span if span >= 0 else None)])
+            doc = y_arr([y_hash([("prefix", pfx), ("next-hop", y_ip(end))])])      # handed to Config::parse_routes directly
         else:
             raise Unsupported(kind)
         return e.call_fn(fn, [Ref(Cell(doc))])
@@ -315,7 +360,24 @@ def policy_obligation(prog, enums, structs, kind, span):
         else:
             k = "err" if val.variant == "Err" else "ok"
             kinds[k] = kinds.get(k, 0) + 1
-            if k == "ok":
+            if kind == "routes":
+                if k == "ok":
+                    rs = val.fields[0]
+                    good = rs.variant == "Some" and len(rs.fields[0].items) == 1
+                    claims.append(("a route is accepted only with a prefix written as <network address>/<length 0..32>", z3.BoolVal(0 <= span <= 32 and good)))
+                    if good and 0 <= span <= 32:
+                        r0 = rs.fields[0].items[0]
+                        sn = field(structs, r0, "prefix")
+                        m_ = z3.BitVecVal(((0xFFFFFFFF << (32 - span)) & 0xFFFFFFFF) if span else 0, 32)
+                        claims.append(("an accepted route carries the written prefix and next hop",
+                                       z3.And(field(structs, sn, "addr").fields[0].t == start, field(structs, sn, "prefixlen").t == span, (start & ~m_) == 0,
+                                              field(structs, r0, "nexthop").fields[0].t == end)))
+                else:
+                    # refusal is right when there is no length, the length is too long, or host bits are set
+                    if 0 <= span <= 32:
+                        m_ = z3.BitVecVal(((0xFFFFFFFF << (32 - span)) & 0xFFFFFFFF) if span else 0, 32)
+                        claims.append(("a route whose prefix is a network address with a length 0..32 is accepted", (start & ~m_) != 0))
+            elif k == "ok":
                 pol = val.fields[0]
                 aset = field(structs, pol, "apply_address")
                 probe = z3.BitVec("probe", 32)
